@@ -169,11 +169,62 @@ def find (t : Table) (key : String) (fn : Option (Table → Nat → Except Err B
       | [] => .error .value
       | x :: rest => if rest.all (x.valEq ·) then .ok x else .error .value     -- more than one distinct value (NaN = NaN)
 
+/-- what `one_or_none` returns: `None`, the row (a dict) or one cell of it -/
+inductive OneRes where
+  | none
+  | row (r : List (String × Cell))
+  | cell (c : Cell)
+  deriving Repr, DecidableEq
+
+/-- the record `d[i]`: column name ↦ cell -/
+def rowD (t : Table) (i : Nat) : List (String × Cell) := t.map fun c => (c.1, c.2.getD i .none)
+
+/-- `res = res[0]; if find: res = res[find]` (lines 590-592): an empty `find` is falsy; `row[find]` raises KeyError -/
+def pickRow (row : List (String × Cell)) : Option String → Except Err OneRes
+  | Option.none => .ok (.row row)
+  | some k => if k = "" then .ok (.row row) else
+      match row.lookup k with
+      | some c => .ok (.cell c)
+      | Option.none => .error .key
+
+/-- `if len(res) > 1: raise ValueError; if len(res) == 0: return None; res[0] …` (lines 586-593) -/
+def oneOf (res : Table) (find : Option String) : Except Err OneRes :=
+  if res.nrows > 1 then .error .value
+  else if res.nrows == 0 then .ok .none
+  else pickRow (res.rowD 0) find
+
+/-- `d.one_or_none(f?, exc = {…}, find = k, **conds)` (lines 563-593): `inc`, then - `if exc:`, an empty dict and `None` are
+falsy - `res.exc(**exc)` on the RESULT, then the length test -/
+def oneOrNone (t : Table) (fn : Option (Table → Nat → Except Err Bool)) (conds excs : List (String × Cond))
+    (find : Option String) : Except Err OneRes :=
+  match t.inc fn conds with
+  | .error e => .error e
+  | .ok res =>
+    match (if excs.isEmpty then Except.ok res else res.exc Option.none excs) with
+    | .error e => .error e
+    | .ok res => oneOf res find
+
 end Table
 
 /-! ### the callables of the correspondence (a fixed menu implemented on both sides) -/
 
+/-- python truthiness `bool(v)` of a cell: what `if f(**row)` / `if not f(**row)` make of a callable's return value
+(`inc` line 548, `exc` line 640).  NaN, ±inf and datetimes are truthy; `None`, `False`, `0`, `0.0`, `''` are not. -/
+def Cell.truthy : Cell → Bool
+  | .none => false
+  | .bool b => b
+  | .int n => n != 0
+  | .flt q => q != 0
+  | .nan => true
+  | .pinf => true
+  | .ninf => true
+  | .str s => s != ""
+  | .dt _ => true
+
 inductive Pred where
+  | ident (a : String)             -- lambda a: a             (the cell itself: any value, read by truthiness)
+  | orElse (a b : String)          -- lambda a, b: a or b     (python `or`: `a` when truthy, else `b`)
+  | constv (c : Cell)              -- lambda: c               (a constant that is not a bool)
   | isNone (a : String)            -- lambda a: a is None
   | notNone (a : String)           -- lambda a: a is not None
   | isStr (a : String)             -- lambda a: isinstance(a, str)
@@ -185,6 +236,11 @@ inductive Pred where
 def Pred.eval (p : Pred) (t : Table) (i : Nat) : Except Err Bool :=
   let isStr : Cell → Bool := fun c => match c with | .str _ => true | _ => false
   match p with
+  | .ident a => match t.cellAt i a with | some x => .ok x.truthy | Option.none => .error .type
+  | .orElse a b => match t.cellAt i a, t.cellAt i b with
+      | some x, some y => .ok (if x.truthy then x.truthy else y.truthy)
+      | _, _ => .error .type
+  | .constv c => .ok c.truthy
   | .isNone a => match t.cellAt i a with | some x => .ok (x == .none) | Option.none => .error .type
   | .notNone a => match t.cellAt i a with | some x => .ok (x != .none) | Option.none => .error .type
   | .isStr a => match t.cellAt i a with | some x => .ok (isStr x) | Option.none => .error .type
